@@ -13,7 +13,8 @@ RULE = ("polynomials of degree 1..12 over f64 and Complex<f64>, each with and wi
         "(separated, zero, repeated, clustered, conjugate pairs, purely imaginary; exact rational roots, coefficients exact in f64 "
         "where possible), random coefficients of mixed sign and scale (ratio <= 1e6) with vanishing constant/inner coefficients, "
         "closed-form special branches (b = 0, c = 0, d0 = 0, d1 purely imaginary, triple root), quadratics/cubics with coefficient "
-        "magnitudes 1e-3..1e3 and real-/imaginary-dominated phases, sparse x^n + a x^k + b, degree 0 and the empty coefficient list; "
+        "magnitudes 1e-3..1e3 and real-/imaginary-dominated phases, closed-common-scale = degree 1..3 with well-separated prescribed roots and EVERY coefficient times 10^+-k, k in {30, 60, 85, 120, 170} "
+        "(quick: 6 of the 30 (degree, k, sign) combinations per run, rotating with the seed; adversarial family of the recorded finding KF-C10-H, keyed by the input alone), sparse x^n + a x^k + b, degree 0 and the empty coefficient list; "
         "structured special-value families (findings/special-values-specA/C10-table.md): coefficients iid from the alphabet {0, +-1, +-i, +-2, +-2i, 1/2, -i/2, "
         "0.6+0.8i, -0.8+0.6i, 0.6-0.8i, 1+-i, -1+i} (degrees 1..5) and from {0, +-1, +-2, +-1/2, 3}; quadratics with a prescribed discriminant class "
         "(zero, +-real, +-imaginary, off-axis square) for leading coefficients on the axes / diagonals; cubics by the class of (d0, d1, dis): shifted pure cubes, "
@@ -33,10 +34,10 @@ TRUSTED = ["Coq 8.16.1 kernel + vm_compute (primitive binary64)", "Rust executor
 ASSUMPTIONS = ["Rust semantics of Vec/usize/f64 as modelled (IEEE-754 binary64, no fused multiply-add, round-to-nearest)",
                "the three libm-backed primitives are an oracle table recorded from the implementation's own run, not modelled",
                "accuracy of the returned roots (backward error) and convergence of Laguerre's iteration are searched, not proved; "
-               "five failure classes are recorded known findings (KF-C10-A/B/C/E/F)"]
-UNPROVED = ["normwise backward error of the returned values in f64 (tie + search; false of the code on the classes KF-C10-A/B/C/E/F)",
+               "seven failure classes are recorded known findings: six decided by the model's trace (KF-C10-A/B/C/E/F/G) and one decided by the input alone (KF-C10-H, common scale of the coefficients)"]
+UNPROVED = ["normwise backward error of the returned values in f64 (tie + search; false of the code on the classes KF-C10-A/B/C/E/F/G/H; the UNPOLISHED backward-error clause at degree >= 4 with every laguer call converged is excused (KF-C10-C) only when the reference roots span a factor >= 10 in modulus; otherwise such a failure is reported as a violation -- the search has seen ONE such input on the unchanged source in 15 quick seeds: VERIF_SEED=8, family random-cplx, degree 11, nine roots of modulus ~1 and two of modulus ~7.5-8 (spread 8.02), backward error 5.5e-9 > 1e-10, findings/C10-KF-C-spread.md)",
             "convergence of Laguerre's iteration (false of the code from x = 0 on nearly symmetric deflated polynomials: KF-C10-A)",
-            "one-to-one correspondence with the true roots (search: prescribed-root families, and on every other case of degree >= 2 certified reference roots from an independent solver, when well separated and well conditioned)",
+            "one-to-one correspondence with the true roots (search: prescribed-root families, and on every other case of degree >= 2 certified reference roots from an independent solver, when well separated and well conditioned); FALSE of the code on KF-C10-G (refine = true, degree >= 4: two polishing calls entered with different drifted estimates end on the same root, a well-separated true root is matched by no returned value), on KF-C10-B (a0 = 0 with refinement) and on KF-C10-H (common scale)",
             "statelessness of Polynomial::roots (search: the same object asked twice / cloned / fresh, bitwise)",
             "that libm's sqrt/pow return square/cube roots (hypotheses of quadratic_factors / cubic_factors; in the tie they are recorded values)"]
 
@@ -60,18 +61,21 @@ MANIFEST = dict(
           "(linear_root, quadratic_factors, quadratic_q0, quadratic_total, cubic_factors). "
           "Legacy: quadratic_legacy_refuted, cubic_sign_legacy_refuted (vm_compute on the committed witnesses). "
           "NOT proved: that the floating-point values returned are accurate roots, and that Laguerre's iteration converges -- both are "
-          "false of the code on five recorded classes of inputs (KF-C10-A exhaustion, -B polishing a zero root, -C unpolished deflation "
-          "drift, -E overflow of |p(x)| in the convergence test, -F cancellation in the Cardano path). Those halves are covered by a "
+          "false of the code on seven recorded classes of inputs (KF-C10-A exhaustion, -B polishing a zero root, -C unpolished deflation "
+          "drift, -E overflow of |p(x)| in the convergence test, -F cancellation in the Cardano path, -G two polished values collapsing on one root, "
+          "-H closed forms not invariant under the common scale of the coefficients). Those halves are covered by a "
           "bit-for-bit tie of the float model to the implementation on every generated case (the three libm primitives as a recorded "
           "oracle table) and by a failing-input search with the property statement as oracle; a failing input is downgraded to a known "
-          "finding only if the model reproduces the implementation bit for bit on it, the model's trace shows the recorded cause, and the Laguerre constants MR, MT, frac[] "
-          "of the source (which are regenerated into the model, so the model follows an edit of them) are the pinned ones. The search covers, besides random and "
+          "finding only if (keys A..G) the model reproduces the implementation bit for bit on it, the model's trace shows the recorded cause, and the Laguerre constants MR, MT, frac[] "
+          "of the source (which are regenerated into the model, so the model follows an edit of them) are the pinned ones, or (key H) the INPUT has degree <= 3 and the quantity "
+          "the unscaled complex primitives square -- the divisor a_1, the discriminant (degree 2 in the coefficients), the Cardano radicand (degree 6) -- leaves the normal f64 range "
+          "when squared, and the failure is a non-finite / inaccurate / unmatched value (never a panic or a wrong count). The search covers, besides random and "
           "prescribed-root polynomials, structured special-value families (axis-aligned / unit-modulus / diagonal coefficient alphabets, prescribed discriminant classes, "
           "unit multiples and rotations, power-of-two scalings, monomials and high zero multiplicities, negative zeros, extreme leading / trailing coefficients, the same "
           "object asked twice) and matches the returned values one to one against certified reference roots whenever those are well separated and well conditioned."),
-    note="partial: structure and closed forms proved exactly; float accuracy and convergence by tie + search; 5 open known findings",
+    note="partial: structure and closed forms proved exactly; float accuracy and convergence by tie + search; 7 open known findings (KF-C10-A,B,C,E,F,G,H)",
     technique="Coq proof (abstract ring/field, loop invariants, field/ring) + differential execution of the float model with an oracle table for libm calls",
-    design="DESIGN.md section 7 (C10), 8 (KF-C10-A/B/C), 9 (hook); findings/C10-known-findings.txt (KF-C10-E, -F)")
+    design="DESIGN.md section 7 (C10), 8 (KF-C10-A/B/C), 9 (hook); findings/C10-known-findings.txt (KF-C10-E, -F); findings/special-values-specA/C10-finding-polish-collapse.md (-G); findings/C10-common-scale.md (-H)")
 
 THETA_POLISHED = 1e-12
 THETA_UNPOLISHED = 1e-10
@@ -273,6 +277,29 @@ def generate(rng, tier):
         if g.chance(1, 5): co[g.below(deg)] = 0j
         if all(c.imag == 0 for c in co): both(cases, 'f64', [c.real for c in co], "closed-scaled-real")
         else: both(cases, 'cplx', co, "closed-scaled-cplx")
+    # --- closed forms under a COMMON scale of the coefficients (adversarial family of the recorded finding KF-C10-H): degree 1..3,
+    #     well-separated prescribed roots (so the ratio of the coefficients is small: inside the quantifier, which restricts only
+    #     the ratio), every coefficient times 10^+-k, k in {30, 60, 85, 120, 170}.  The roots do not move; the unscaled squares of
+    #     Complex::sqrt/pow/abs/div applied to the divisor (degree 1), the discriminant (degree 2 in the coefficients) and the
+    #     Cardano radicand (degree 6) leave the f64 range: NaN, or finite and silently wrong values.  In-range members (degree 1
+    #     up to 1e+-120, degree 2 up to 1e+-60) are ordinary cases and must pass.
+    g = rng.fork("closed-common-scale")
+    KS = [30, 60, 85, 120, 170]
+    combos = [(deg, k, sg) for deg in (1, 2, 3) for k in KS for sg in (-1, 1)]
+    if quick:      # a few per run, rotating with the seed: two per degree
+        o = g.below(10)
+        combos = [c for i, c in enumerate(combos) if (i % 10) in (o, (o + 5 + 2) % 10)]
+    for (deg, k, sg) in combos:
+        cplx_roots = g.chance(1, 4)
+        rs = gen_prescribed(g, "separated-complex" if cplx_roots else "separated-real", deg)
+        rs = [r for r in rs if r != (Fraction(0), Fraction(0))]
+        while len(rs) < deg: rs.append((Fraction(9, 2) + len(rs), Fraction(0)))      # outside the pools: stays well separated
+        elt, co, exact = to_float_coeffs(expand_roots(rs, (Fraction(g.choice([1, -1, 2, 3])), Fraction(0))))
+        sc = 10.0 ** (sg * k)
+        # 10^k is not a power of two: each coefficient is rounded once (relative 2^-53); the prescribed roots are well separated
+        # and well conditioned, the matching clause (tolerance 1e-6) is used only under its own condition gate
+        sco = [c * sc for c in co]
+        both(cases, elt, sco, "closed-common-scale-1e%+d" % (sg * k), prescribed=rs if exact else None)
     # --- sparse polynomials x^n + a x^k + b (vanishing inner coefficients), real and complex
     g = rng.fork("sparse")
     reps = 4 if quick else 32
@@ -547,8 +574,10 @@ MATCH_CHECKED = [0]   # cases on which the one-to-one matching with prescribed r
 FAILS = {}        # case line -> failure kind (read by finding_key)
 FAILED_CASES = {} # case line -> case, every input the oracle rejected (their model traces are computed in one batch)
 
-def fail(case, kind, text, root=None):
-    FAILS[case.line] = (kind, root)
+def fail(case, kind, text, root=None, unmatched=None):
+    """root: index of the offending returned value (non-finite / backward-error); unmatched: indices of the returned values that
+    are matched to no true root (matching)"""
+    FAILS[case.line] = (kind, root, unmatched)
     FAILED_CASES[case.line] = case
     return kind + ": " + text
 
@@ -647,12 +676,15 @@ def oracle(case, items):
             if ok:
                 MATCH_CHECKED[0] += 1
                 used = [False] * n
+                missing = []
                 for i in range(n):
                     tol = 1e-6 * max(1.0, abs(pc[i]))
                     hit = [k for k in range(n) if not used[k] and abs(roots[k] - pc[i]) <= tol]
-                    if not hit:
-                        return fail(case, "matching", "prescribed root %r (separation %.3g) is matched by no returned value: %r (refine=%s)" % (pc[i], sep, roots, refine))
+                    if not hit: missing.append(i); continue
                     used[min(hit, key=lambda k: abs(roots[k] - pc[i]))] = True
+                if missing:
+                    return fail(case, "matching", "prescribed root %r (separation %.3g) is matched by no returned value: %r (refine=%s)" % (pc[missing[0]], sep, roots, refine),
+                                unmatched=[k for k in range(n) if not used[k]])
                 return None
     # one-to-one correspondence WITHOUT prescribed roots: reference roots from an independent solver (numpy: eigenvalues of the
     # companion matrix), each CERTIFIED by exact evaluation, and used only when they are well separated and well conditioned
@@ -678,12 +710,15 @@ def oracle(case, items):
             if ok:
                 REF_MATCH_CHECKED[0] += 1
                 used = [False] * n
+                missing = []
                 for i in range(n):
                     tol = 1e-6 * max(1.0, abs(pc[i]))
                     hit = [k for k in range(n) if not used[k] and abs(roots[k] - pc[i]) <= tol]
-                    if not hit:
-                        return fail(case, "matching", "reference root %r (certified, separation %.3g) is matched by no returned value: %r (refine=%s, coefficients %r)" % (pc[i], sep, roots, refine, coeffs))
+                    if not hit: missing.append(i); continue
                     used[min(hit, key=lambda k: abs(roots[k] - pc[i]))] = True
+                if missing:
+                    return fail(case, "matching", "reference root %r (certified, separation %.3g) is matched by no returned value: %r (refine=%s, coefficients %r)" % (pc[missing[0]], sep, roots, refine, coeffs),
+                                unmatched=[k for k in range(n) if not used[k]])
     return None
 
 REF_MATCH_CHECKED = [0]
@@ -711,14 +746,22 @@ def traces_for_failures(cases_by_line):
     todo = [(ln, c) for ln, c in cases_by_line.items() if isinstance(c.term, LazyTerm)]
     if not todo: return
     terms = [("k%d" % i, c.term.trace_term()) for i, (ln, c) in enumerate(todo)]
+    # a timeout / killed coqc under load must not turn every oracle failure into an unclassified VIOLATION: run again once;
+    # a second failure is a machinery error (the exception reaches main: exit 2), never a list of property violations
     try:
         res = run_coq(terms, "C10trace", IMPORTS)
     except CoqRunError:
-        return
+        import time
+        time.sleep(5)
+        try:
+            res = run_coq(terms, "C10trace-retry", IMPORTS)
+        except CoqRunError as e:
+            TRACES = None
+            raise RuntimeError("C10: the model traces of the %d inputs the oracle rejected could not be computed (Coq run failed twice): %s" % (len(todo), str(e)[:600]))
     for i, (ln, c) in enumerate(todo):
         TRACES[ln] = res.get("k%d" % i)
 
-def classify(case, items, kind, root=None):
+def classify(case, items, kind, root=None, unmatched=None):
     """the key of DESIGN section 7/C10 for a failing input, or None.  Decided by the model's trace, and only
     if the model reproduces the implementation's answer bit for bit on this very input."""
     global TRACES
@@ -770,6 +813,21 @@ def classify(case, items, kind, root=None):
         upstream = list(mine)
     else:
         upstream = list(tr)
+    # kind "matching": the offending values are the returned values matched to no true root (`unmatched`); only the calls
+    # that can have influenced one of THEM count (not an Exhausted call anywhere in the run)
+    # A value that coincides (1e-6) with an unmatched one is its duplicate: which of the two the greedy matching left over is
+    # arbitrary (two polishing calls ending on the same root), so both count as offending.
+    if root is None and kind == "matching" and unmatched:
+        outs = [complex(bits_f64(x), bits_f64(y)) for x, y in bits]
+        off = set(unmatched)
+        for u in unmatched:
+            for k in range(len(outs)):
+                if abs(outs[k] - outs[u]) <= 1e-6 * max(1.0, abs(outs[u])): off.add(k)
+        off = sorted(k for k in off if k < n)
+        if n >= 4:
+            upstream = list(tr[:n - min(off)]) + ([polish[k] for k in off if k < len(polish)] if refine else [])
+        else:
+            upstream = [polish[k] for k in off if k < len(polish)] if refine else []
     if any(t[0] == 2 and t[2] == 1 for t in upstream):
         return "KF-C10-A"
     # KF-C10-E: the convergence test |p(x)| <= err of a call that produced the offending root passed with err = inf
@@ -781,10 +839,15 @@ def classify(case, items, kind, root=None):
         if kind == "backward-error" and not refine: return "KF-C10-F"
         if kind == "non-finite" and (not refine or (root is not None and polish[root][2] == 0)): return "KF-C10-F"
     # KF-C10-C: unpolished deflation drift: degree >= 4, every call converged / stalled with finite values
+    #           AND (the documented cause) the root magnitudes span orders: max|r| / min|r| >= 10 on the reference roots (numpy,
+    #           independent of the code); when no usable reference roots exist the trace condition alone decides
     if kind == "backward-error" and (not refine) and n >= 4 and all(t[0] in (0, 1) for t in tr) and all(t[3] == 1 for t in tr):
-        return "KF-C10-C"
-    # KF-C10-G (PROPOSED key: not in KNOWN_FINDINGS.txt, so the input is reported as a violation until the finding is recorded;
-    #           findings/special-values-specA/C10-finding-polish-collapse.md): the same drift WITH refinement -- degree >= 4, every
+        ref = reference_roots(coeffs)
+        if ref is None: return "KF-C10-C"
+        mags = [abs(z) for z in ref]
+        if min(mags) == 0 or max(mags) / min(mags) >= KF_C_MIN_SPREAD: return "KF-C10-C"
+        return None
+    # KF-C10-G (recorded in KNOWN_FINDINGS.txt; findings/special-values-specA/C10-finding-polish-collapse.md): the same drift WITH refinement -- degree >= 4, every
     #           laguer call converged / stalled with finite values, and two polishing calls that were entered with DIFFERENT
     #           unpolished values end on the SAME root, so a well-separated true root is matched by no returned value
     if kind == "matching" and refine and n >= 4 and len(polish) == n and all(t[0] in (0, 1) and t[3] == 1 for t in tr):
@@ -795,6 +858,7 @@ def classify(case, items, kind, root=None):
                     return "KF-C10-G"
     return None
 
+KF_C_MIN_SPREAD = 10.0   # KF-C10-C, "root magnitudes span orders": max|r| / min|r| of the reference roots at least this
 KEY_COUNTS = {}
 PRIM_COV = {}
 
@@ -878,11 +942,41 @@ def extra_checks(exe, rng, tier):
                      "oracle_entries_checked_against_mpmath": n_ref, "oracle_entries_outside_reference_range": skipped})
     return events, dict(PRIM_COV)
 
+# ---- recorded finding KF-C10-H (findings/C10-common-scale.md): the closed forms are not invariant under the common scale of the
+# coefficients.  Decided from the INPUT alone: degree n <= 3 and the quantity the unscaled complex primitives square -- the divisor
+# a_1 (n = 1: Complex division), the discriminant b^2 - 4ac (n = 2: Complex::sqrt takes |.|), the Cardano radicand -27 a^2 dis (n = 3)
+# -- is homogeneous of degree d = 1, 2, 6 in the coefficients; the key is given iff (max|c_k|^d)^2 or (min over the non-zero
+# coefficients |c_k|^d)^2 lies outside the normal f64 range [2^-1022, 2^1023].  Measured on the unchanged source with roots
+# 1, 2(, 3): n = 1 fails from 1e+-155..165 on, n = 2 from 1e-80 / 1e+80, n = 3 from 1e+-30.
+H_MIN = Fraction(2) ** -1022
+H_MAX = Fraction(2) ** 1023
+H_POWER = {1: 2, 2: 4, 3: 12}
+
+def common_scale_out_of_range(coeffs):
+    """coeffs: complex floats low to high (leading one non-zero)"""
+    n = len(coeffs) - 1
+    if n not in H_POWER: return False
+    try:
+        m2 = [fabs2(cfrac(c)) for c in coeffs if c != 0]      # |c|^2, exact
+    except (OverflowError, ValueError):
+        return False                                           # non-finite coefficients: outside the quantifier
+    if not m2: return False
+    e = H_POWER[n] // 2                                        # (|c|^2)^e = |c|^(2d)
+    hi, lo = max(m2) ** e, min(m2) ** e
+    return hi > H_MAX or hi < H_MIN or lo > H_MAX or lo < H_MIN
+
 def finding_key(case, desc, items):
     if items is None: return None
     kr = FAILS.get(case.line)
     if kr is None: return None
-    k = classify(case, items, kr[0], kr[1])
+    # KF-C10-H: from the input; only for the symptoms of the cause (a non-finite, inaccurate or unmatched VALUE): a panic or a
+    # wrong number of values ("count"), a history failure, stays a violation whatever the scale
+    if kr[0] in ("non-finite", "backward-error", "matching") and case.meta.get("kind") != "twice" and "coeffs" in case.meta:
+        cs = [complex(a, b) for a, b in case.meta["coeffs"]]
+        if len(cs) >= 2 and cs[-1] != 0 and common_scale_out_of_range(cs):
+            KEY_COUNTS["KF-C10-H"] = KEY_COUNTS.get("KF-C10-H", 0) + 1
+            return "KF-C10-H"
+    k = classify(case, items, kr[0], kr[1], kr[2] if len(kr) > 2 else None)
     KEY_COUNTS[str(k)] = KEY_COUNTS.get(str(k), 0) + 1
     return k
 
@@ -892,7 +986,8 @@ def extra_coverage():
     logs = [len(a["log"] or []) for a in cache.values()]
     nohook = sum(1 for a in cache.values() if a.get("nohook"))
     byfail = {}
-    for ln, (kind, root) in FAILS.items():
+    for ln, kr in FAILS.items():
+        kind = kr[0]
         byfail[kind] = byfail.get(kind, 0) + 1
     return {"libm_calls_recorded": sum(logs), "cases_with_oracle_table": sum(1 for n in logs if n > 0),
             "largest_oracle_table": max(logs) if logs else 0, "executor_without_hook_cases": nohook,
